@@ -172,7 +172,9 @@ def other_case():
     json_scalar = st.one_of(st.integers(-10 ** 9, 10 ** 9), st.sampled_from(TEXTS), st.booleans(), st.none(),
                             st.floats(allow_nan=False, allow_infinity=False, width=64))
     uid = st.integers(1, 2 ** 100).map(lambda i: "uuid:%032x" % (i % (1 << 128)))
-    leaf = st.one_of(json_scalar, uid)
+    # leaves JSON cannot hold ("np:<kind>"): the setter has to refuse them or give them back unchanged
+    odd = st.sampled_from(["np:array", "np:int64", "np:float32", "np:bytes", "np:set", "np:complex", "np:tuple"])
+    leaf = st.one_of(json_scalar, json_scalar, json_scalar, uid, uid, odd)
     meta = st.dictionaries(st.sampled_from(["a", "B c", "Ω", "k3"]), st.one_of(leaf, st.dictionaries(st.sampled_from(["x", "y z"]), leaf, max_size=2)), min_size=1, max_size=3)
     comments = st.lists(st.fixed_dictionaries({"Author": st.sampled_from(TEXTS), "Date": st.just("2020-05-21T10:12:15"), "Text": st.sampled_from(TEXTS)}), min_size=1, max_size=3)
     blob = st.binary(min_size=0, max_size=4096)
@@ -181,7 +183,12 @@ def other_case():
         st.fixed_dictionaries({"family": st.just("metadata"), "value": meta, "on": st.sampled_from(["object", "group"])}),
         st.fixed_dictionaries({"family": st.just("comments"), "value": comments, "on": st.sampled_from(["object", "group"])}),
         st.fixed_dictionaries({"family": st.just("file"), "blob": blob.map(lambda b: b.hex()), "name": st.sampled_from(["f.dat", "Ω.bin", "a b.txt"]), "on": st.sampled_from(["object", "group"])}),
-        st.fixed_dictionaries({"family": st.just("valuemap"), "value": vmap.map(lambda d: {str(k): v for k, v in d.items()}), "zero": st.sampled_from([None, "Unknown", "Unknown", "other"])}),
+        st.fixed_dictionaries({"family": st.just("valuemap"), "value": vmap.map(lambda d: {str(k): v for k, v in d.items()}), "zero": st.sampled_from([None, "Unknown", "Unknown", "other"]),
+                               # a later edit of the stored map: none / a fresh dictionary / the live map edited in place and
+                               # assigned back (as map object or as its dictionary), in the creating or in a new session
+                               "edit": st.sampled_from([None, "fresh", "inplace-map", "inplace-dict"]),
+                               "session": st.sampled_from(["same", "new"]),
+                               "relabel": st.sampled_from(TEXTS[1:]), "newkey": st.integers(21, 40)}),
     )
 
 
